@@ -275,10 +275,11 @@ def get_label(tree, **params):
     if 'gf_separator' in params:
         gf_separator = str(params['gf_separator'])
     gf_string = ""
-    if 'gf' in params and not tree.data['edge'].startswith("-") \
+    edge = tree.data['edge'] if tree.data['edge'] is not None else DEFAULT_EDGE
+    if 'gf' in params and not edge.startswith("-") \
        and (has_children(tree)
             or 'gf_terminals' in params):
-        gf_string = "%s%s" % (gf_separator, tree.data['edge'])
+        gf_string = "%s%s" % (gf_separator, edge)
     head = ""
     if 'mark_heads_marking' in params and tree.data['head']:
         head = DEFAULT_HEAD_MARKER
